@@ -73,6 +73,18 @@ func (k Keeper) CheckAndLiquidateUnhealthyPosition(ctx sdk.Context, mtp *types.M
 		}
 	} else {
 		ctx.Logger().Debug(errors.Wrap(types.ErrMTPHealthy, "skipping executing force close because mtp is healthy").Error())
+		// interest and funding were settled above (custody and amm balances changed): refresh the accounted pool
+		if k.hooks != nil {
+			ammPool, err = k.GetAmmPool(ctx, mtp.AmmPoolId)
+			if err != nil {
+				return err
+			}
+			params := k.GetParams(ctx)
+			err = k.hooks.AfterPerpetualPositionModified(ctx, ammPool, pool, sdk.MustAccAddressFromBech32(mtp.Address), params.EnableTakeProfitCustodyLiabilities)
+			if err != nil {
+				return err
+			}
+		}
 	}
 
 	return nil
